@@ -415,6 +415,14 @@ fn ingest_from_pubsub(map: Arc<RwLock<HashMap<String, u128>>>) {
 }
 
 fn pubsub_handle_s2d(map: &Arc<RwLock<HashMap<String, u128>>>, s2d: &StationToDetector) {
+    // A clear request describes no session (the station sends only the operation), so it has to
+    // be handled before the message is parsed as one - otherwise it is rejected for its missing
+    // protocol and addresses and the sessions of a previous station run are never dropped.
+    if let StationOperations::Clear = s2d.operation() {
+        pubsub_clear(map);
+        return;
+    }
+
     let sd = match SessionResult::from(s2d) {
         Ok(m) => m,
         Err(e) => {
